@@ -70,6 +70,29 @@ def direct_oracle(m, impl):
             return "argument %r is exactly an existing patch name but resolved to %r" % (s, impl)
         if impl.startswith("ok ") and unhx(impl[3:]) not in names:
             return "resolved to a name that is not in the stack"
+    if m[0] == "resolve":
+        # independent reading of `{base}` followed by offset atoms (+n up, ~n down, n = 1 when
+        # omitted) over the visible patches: `{base}+1` is the first patch.  Only chains that stay
+        # on a patch of the stack after every atom are judged, and only when no prefix of the argument is
+        # itself a patch name (a name wins).
+        _, a, u, h, oids, s = m
+        import re as _re
+        mm = _re.fullmatch(r"\{base\}((?:[+~][0-9]{0,6})+)", s)
+        if mm:
+            atoms = _re.findall(r"([+~])([0-9]*)", mm.group(1))
+            prefixes = ["{base}" + "".join(x + y for x, y in atoms[:k]) for k in range(1, len(atoms) + 1)]
+            plain_numbers = all(num == "" or (num[0] != "0") for _, num in atoms)
+            if atoms[0][0] == "+" and plain_numbers and not any(pf in a + u + h for pf in prefixes):
+                vis = a + u
+                pos, inside = -1, True
+                for sign, num in atoms:
+                    k = int(num) if num else 1
+                    pos = pos + k if sign == "+" else pos - k
+                    if not (0 <= pos < len(vis)):      # never back onto the base itself either
+                        inside = False
+                if inside and pos >= 0 and impl != "ok " + hx(vis[pos]):
+                    return ("%r is patch number %d from the base, %r, but resolved to %r"
+                            % (s, pos + 1, vis[pos], unhx(impl[3:]) if impl.startswith("ok ") else impl))
     if m[0] == "resolve_names" and impl.startswith("ok "):
         _, a, u, h, oids, c, contig, rs = m
         out = [unhx(x) for x in impl[3:].split(",")] if impl[3:] != "-" else []
